@@ -15,6 +15,7 @@ RULE = ("operation sequences add / addNode / change / create / createNode / fetc
         "(thorough) over a core alphabet and up to length 2 over the full alphabet; (2) seeded random sequences of "
         "4..40 operations.  distinct = distinct operation list; non-trivial = at least two operations of which at "
         "least one changed the tree")
+RULE = __import__("vf.core", fromlist=["rule_add"]).rule_add(RULE, 'paths in which a segment name occurs at two depths')
 META = {"engine": "B history",
         "technique": "runtime monitoring: real Store and an executable tree model stepped together; lookup identity, "
                      "names and the whole tree compared after every step, snapshot equality on rejection",
